@@ -329,7 +329,10 @@ def history_cases(draw):
                 regu=draw(st.sampled_from(["AT1", "AT2"])), solver=draw(st.sampled_from(SOLVERS)),
                 Gc=draw(st.sampled_from([5e-4, 1e-3, 2e-3])), l0=draw(st.sampled_from([0.15, 0.3])),
                 load=draw(st.sampled_from(["tx", "tx", "shear", "biax"])), amps=amps,
-                tol=draw(st.sampled_from([1.0, 1.0, 0.05])), peek=draw(st.booleans()))
+                tol=draw(st.sampled_from([1.0, 1.0, 0.05])), peek=draw(st.booleans()),
+                # revisit: between two load steps an earlier saved iteration is looked at (restored, or queried through
+                # Result(iter=)), then the last one is restored before the history goes on
+                revisit=draw(st.sampled_from([None, None, "set_iter", "result_iter"])))
 
 
 def plate_recipe(m, dim):
@@ -378,6 +381,14 @@ def check_history(case, rec):
     loaded = False
     nt = False
     for k, a in enumerate(amps):
+        if k >= 2 and case.get("revisit"):
+            j = (k * 7 + 3) % (k - 1)  # an earlier iteration, not the last one
+            if case["revisit"] == "set_iter":
+                simu.Set_Iter(j)
+            else:
+                simu.Result("damage", iter=j)
+            simu.Set_Iter(-1)
+            rec.label("revisit:" + case["revisit"])
         simu.Bc_Init()
         simu.add_dirichlet(n0, [0.0] * dim, unk)
         if case["load"] == "tx":
